@@ -588,11 +588,14 @@ def diffWithFirstBag (b : Bag) : Option Bag :=
 def matchSeq (L : Nat) (ref other : Seq) : Seq :=
   other.mapIdx fun i c => if i < L && ref.getD i 0 != POINT && c == POINT then ref.getD i 0 else c
 
-/-- with at least two rows the loop reads the reference and every other row at every site below the cached length -/
+/-- with at least two rows the loop reads the reference at every site below the cached length, and - the test is
+`ref[site] != POINT && other[site] == POINT`, evaluated left to right - the other row only where the reference holds no
+point: a row that is too short is an index panic exactly when the reference has a site without a point beyond its end -/
 def matchPanics (L : Nat) : List (String × Seq) → Bool
   | [] => false
   | [_] => false
-  | rows => rows.any fun r => r.2.length < L
+  | ref :: rest => decide (ref.2.length < L) ||
+      rest.any fun o => (List.range L).any fun i => decide (o.2.length ≤ i) && ref.2.getD i 0 != POINT
 
 /-- `align.ReplaceMatchChars()`; `none` = index panic -/
 def replaceMatchCharsBag (b : Bag) : Option Bag :=
